@@ -157,6 +157,10 @@ func init() {
 				c05Apply(c, sc, o)
 				c.Count("large-copies:cases")
 			}},
+			{Name: "operations-deep-down", Exhaustive: true, Count: func(core.Tier) int { return len(deepDepths) * 2 }, Run: func(c *core.Ctx, idx int) {
+				c05Apply(c, deepOpsCase(deepDepths[idx/2], idx%2), V5Opts{NegIdx: true, EscapeHTML: idx%4 < 2})
+				c.Count("deep:cases")
+			}},
 			{Name: "ensure-through-null-members", Count: n(10000, 300000), Run: func(c *core.Ctx, idx int) {
 				// EnsurePathExistsOnAdd through object members whose value is null: the member is given a
 				// container as its value (add on an existing member) and must keep its place among its siblings
